@@ -410,19 +410,31 @@ impl Registrations {
         }
 
         let peer = new_registration.record.peer_id();
+        let namespace = new_registration.namespace;
 
-        if self
+        // Registering an existing (peer, namespace) again is a refresh: it replaces the old
+        // registration instead of adding one, so the limits do not apply to it.
+        let superseded = self
             .registrations_for_peer
-            .left_values()
-            .filter(|(p, _)| p == &peer)
-            .count()
-            >= self.config.max_registrations_per_peer
-            || self.registrations_for_peer.len() > self.config.max_registrations_total
+            .get_by_left(&(peer, namespace.clone()))
+            .copied();
+
+        if superseded.is_none()
+            && (self
+                .registrations_for_peer
+                .left_values()
+                .filter(|(p, _)| p == &peer)
+                .count()
+                >= self.config.max_registrations_per_peer
+                || self.registrations_for_peer.len() >= self.config.max_registrations_total)
         {
             return Err(ErrorCode::Unavailable);
         }
 
-        let namespace = new_registration.namespace;
+        if let Some(superseded) = superseded {
+            self.registrations.remove(&superseded);
+        }
+
         let registration_id = RegistrationId::new();
 
         self.registrations_for_peer.insert(
